@@ -1030,12 +1030,22 @@ def r7_lifetime_and_wire(ctx):
     from .c01 import flat_ops
     sf = repo.fn("UDPMessageSerializer.serialize")
     rets = [n for n in walk(sf.node) if isinstance(n, ast.Return) and n.value is not None]
-    bases = set()
-    for r in rets:
-        b = r.value
+
+    def base_of(expr):
+        """name of the object a returned expression is taken from, local aliases (`out = writer`) resolved"""
+        b = expr
         while isinstance(b, (ast.Call, ast.Attribute, ast.Subscript)):
             b = b.func if isinstance(b, ast.Call) else b.value
-        bases.add(b.id if isinstance(b, ast.Name) else None)
+        seen = set()
+        while isinstance(b, ast.Name) and b.id not in seen:
+            seen.add(b.id)
+            srcs = [st.value for st in stores(sf.node, into_defs=False) if st.path == b.id and st.kind == "assign"]
+            if len(srcs) == 1 and isinstance(srcs[0], ast.Name) and _stored_once(sf, b.id):
+                b = srcs[0]
+            else:
+                break
+        return b.id if isinstance(b, ast.Name) else None
+    bases = {base_of(r.value) for r in rets}
     id_writes = []
     for w in {x for x in bases if x}:
         for c, g, chain in flat_ops(repo, sf, "write", {w}):
@@ -1045,10 +1055,7 @@ def r7_lifetime_and_wire(ctx):
            "no write of <msg>.packet_id to a buffer that serialize returns")
     writers = {w for w, _c in id_writes}
     for r in rets:
-        b = r.value
-        while isinstance(b, (ast.Call, ast.Attribute, ast.Subscript)):
-            b = b.func if isinstance(b, ast.Call) else b.value
-        ok = isinstance(b, ast.Name) and b.id in writers
+        ok = base_of(r.value) in writers
         ctx.ob("C04.R7", f"UDPMessageSerializer.serialize: `{norm(r)}` returns the buffer the translated header was written to", ok,
                ctx.w(sf, r), "returns bytes that were not built from the message's current packet_id / acks (e.g. the datagram "
                              "as received): the IDs prepare_message translated never reach the wire")
